@@ -187,6 +187,11 @@ public:
         return info;
     }
 
+    bool IsCounting() const override
+    {
+        return true;
+    }
+
     opval_t* prevop_end_ptr()
     {
         return prevop + prevopSize;
@@ -815,17 +820,23 @@ void ScriptEmitter::EmitCatch(sval_t val, const opval_t* try_begin_code_pos, sou
 
     ClearPrevOpcode();
 
-    ScriptCountManager countManager;
-    ScriptEmitter emitter(countManager, *stateScript, info);
-    // a catch block inside a loop / switch may break or continue it
-    emitter.canBreak = canBreak;
-    emitter.canContinue = canContinue;
-    emitter.EmitRoot(val);
+    size_t numSetLabels = 0;
+    if (!manager.IsCounting())
+    {
+        // only the emitting pass creates the set and has to know how many labels it will hold;
+        // counting again inside a counting pass doubled the work at every nesting level
+        ScriptCountManager countManager;
+        ScriptEmitter emitter(countManager, *stateScript, info);
+        // a catch block inside a loop / switch may break or continue it
+        emitter.canBreak = canBreak;
+        emitter.canContinue = canContinue;
+        emitter.EmitRoot(val);
 
-    const sizeInfo_t& info = countManager.getSizeInfo();
+        numSetLabels = countManager.getSizeInfo().numCatchLabels;
+    }
 
     StateScript* const oldStateScript = stateScript;
-    StateScript* const catchStateScript = manager.CreateCatchStateScript(try_begin_code_pos, code_pos(), info.numCatchLabels);
+    StateScript* const catchStateScript = manager.CreateCatchStateScript(try_begin_code_pos, code_pos(), numSetLabels);
     if (catchStateScript) {
         // the counting pass creates no state script: keep the current one so that a nested
         // try/switch does not bind a reference to a null pointer
@@ -1656,19 +1667,25 @@ void ScriptEmitter::EmitSwitch(sval_t val, sourceLocation_t sourceLoc)
 
     ++switchDepth;
 
-    ScriptCountManager countManager;
-    ScriptEmitter emitter(countManager, *stateScript, info, 5);
-    emitter.canBreak = true;
-    // a switch inside a loop may continue it
-    emitter.canContinue = canContinue;
-    emitter.switchDepth = 1;
-    emitter.EmitRoot(val);
+    size_t numSetLabels = 0;
+    if (!manager.IsCounting())
+    {
+        // see EmitCatch: only the emitting pass needs the label count of the body, so the
+        // sub-emitter is never nested and needs no depth limit
+        ScriptCountManager countManager;
+        ScriptEmitter emitter(countManager, *stateScript, info);
+        emitter.canBreak = true;
+        // a switch inside a loop may continue it
+        emitter.canContinue = canContinue;
+        emitter.switchDepth = 1;
+        emitter.EmitRoot(val);
 
-    const sizeInfo_t& info = countManager.getSizeInfo();
+        // reserve number of case
+        numSetLabels = countManager.getSizeInfo().numCaseLabels;
+    }
 
     oldStateScript = stateScript;
-    // reserve number of case
-    StateScript* const switchStateScript = manager.CreateSwitchStateScript(info.numCaseLabels);
+    StateScript* const switchStateScript = manager.CreateSwitchStateScript(numSetLabels);
     if (switchStateScript) {
         // the counting pass creates no state script: keep the current one so that a nested
         // try/switch does not bind a reference to a null pointer
